@@ -116,6 +116,22 @@ theorem lintCore_spec (ig : IgnoreSet) (text : List Nat) (lang : Nat) (raw : Lis
     rw [← hmap, List.pairwise_map] at hd
     exact hd
 
+/-- the positional look-up inside `dedup` (`raw[o.id]?` under `filterMap`, which would silently
+skip a position out of range) never drops anything: `dedup raw` has exactly the spans
+`remove_overlaps` keeps, in its order — `lintCore_spec` is not true for the wrong reason -/
+theorem dedup_spans (raw : List RawLint) :
+    (dedup raw).map (fun l => (l.start, l.stop))
+      = (removeOverlaps (toOv raw)).map (fun o => (o.s, o.e)) := by
+  unfold dedup
+  have hsub : ∀ o ∈ removeOverlaps (toOv raw), o ∈ toOv raw := C13.removeOverlaps_subset _
+  generalize removeOverlaps (toOv raw) = L at hsub
+  induction L with
+  | nil => rfl
+  | cons o L ih =>
+    obtain ⟨l, hl, hs, he⟩ := mem_toOv (hsub o List.mem_cons_self)
+    simp only [List.filterMap_cons, hl, List.map_cons, hs, he]
+    rw [ih (fun x hx => hsub x (List.mem_cons_of_mem _ hx))]
+
 /-! ### the clauses of the property, over all sequences of calls -/
 
 /-- Every `lint` call of every sequence of calls, from every state: if the rule set's raw lints
@@ -170,6 +186,26 @@ theorem returned_sublist_of_raw_step (s : State) (op : Op) :
 theorem returned_sublist_of_raw (s : State) (ops : List Op) :
     AllCalls (fun op out => ∃ ig, SublistOfRaw ig op out) s ops :=
   run_forall₂ _ (fun s op => ⟨s.ignored, returned_sublist_of_raw_step s op⟩) s ops
+
+/-- the `i`-th result of a sequence is the step taken from the state after the first `i` calls -/
+theorem run_getElem? (s : State) (ops : List Op) (i : Nat) (h : i < ops.length) :
+    (run s ops)[i]? = some (step (final s (ops.take i)) ops[i]).2 := by
+  induction ops generalizing s i with
+  | nil => simp at h
+  | cons o ops ih =>
+    cases i with
+    | zero => simp [run, final]
+    | succ i =>
+      simp only [run, List.getElem?_cons_succ, List.take_succ_cons, final, List.getElem_cons_succ]
+      exact ih _ i (by simpa using h)
+
+/-- `returned_sublist_of_raw` with the ignore set NAMED (there `∃ ig` can be met by the empty set,
+which makes "none of them ignored" say nothing): the `i`-th call of every sequence returns a
+sub-list of a permutation of the raw lints none of which is ignored in the state that call sees,
+i.e. after the first `i` calls. -/
+theorem returned_not_ignored_all_calls (s : State) (ops : List Op) (i : Nat) (h : i < ops.length) :
+    ∃ out, (run s ops)[i]? = some out ∧ SublistOfRaw (final s (ops.take i)).ignored ops[i] out :=
+  ⟨_, run_getElem? s ops i h, returned_sublist_of_raw_step _ _⟩
 
 /-- Every `apply_suggestion` call of every sequence, for a span that points into the text: no
 panic, the result is the splice, the text before and after the span is preserved (C03). -/
@@ -235,6 +271,20 @@ theorem lint_depends_only_on (s s' : State) (hd : s'.synced = s.synced)
     simp only [lintCore_congr hi]
     cases lintCore s.ignored text lang a.raw a.toks <;> rfl
 
+/-- non-vacuity of lint_depends_only_on: two different states (ignore list in the other order,
+other config, other record count) with two ignored contexts answer alike -/
+example :
+    let s : State := (final init [.ignore Wit.C Wit.altsC, .ignore Wit.A' Wit.altsC])
+    let s' : State := ⟨s.ignored.reverse, [], [], [(5, true)], 7⟩
+    s' ≠ s ∧ s'.synced = s.synced ∧ (∀ c, c ∈ s'.ignored ↔ c ∈ s.ignored) ∧ s.ignored.length = 2 ∧
+    (step s' (.lint Wit.textC 0 Wit.altsC)).2 = .lints [] := by
+  intro s s'
+  have h1 : s'.synced = s.synced := by decide
+  have h2 : ∀ c, c ∈ s'.ignored ↔ c ∈ s.ignored := fun c => List.mem_reverse
+  refine ⟨by decide, h1, h2, by decide, ?_⟩
+  rw [lint_depends_only_on s s' h1 h2]
+  decide
+
 /-! ### ignoring -/
 
 theorem final_quiet (s : State) (ops : List Op) (h : ∀ op ∈ ops, quiet op = true) :
@@ -255,6 +305,12 @@ theorem final_quiet (s : State) (ops : List Op) (h : ∀ op ∈ ops, quiet op = 
     simp only [final]
     rw [ih'.1, ih'.2.1, ih'.2.2]
     exact this
+
+/-- non-vacuity of final_quiet (and of `hmid` in the two theorems below): a list of five quiet
+calls of four kinds; `import_words` is not quiet -/
+example : (∀ op ∈ [Op.getConfig, .exportWords, .lint Wit.textC 0 Wit.altsC,
+      .apply Wit.textC ⟨0, 5⟩ (.replaceWith [88]), .setConfig [(5, some true)]], quiet op = true) ∧
+    quiet (.importWords [Wit.wN]) = false := by decide
 
 /-- Clause "ignoring a lint removes it and nothing else from later results", exactly:
 `lint(text)` returned `r₁`; the user ignores `l` (in the same document: the same alternatives,
@@ -343,6 +399,83 @@ theorem masked_stays_masked (ig : IgnoreSet) (text : List Nat) (lang : Nat) (raw
   rw [(attachAll_spec text lang _ ls h).1]
   exact (C14.different_context_kept ig (dedup raw) toks).1
 
+/-- non-vacuity of masked_stays_masked: A' ignored, B (masked by A') does not come back -/
+example :
+    lintCore (ignoreLint [] Wit.A' Wit.toksC) Wit.textC 0 [Wit.C, Wit.B, Wit.A'] Wit.toksC
+      = .ok [⟨Wit.C, [103, 104], 0⟩] ∧ dedup [Wit.C, Wit.B, Wit.A'] = [Wit.A', Wit.C] := ⟨rfl, rfl⟩
+
+/-- "Keeps hiding it", over ALL later calls but `clear_ignored_lints` (further ignores, imports of
+ignore lists and of words, config changes, …): an ignored context stays in the list. -/
+theorem ignored_monotone (s : State) (ops : List Op) (h : ∀ op ∈ ops, op ≠ .clearIgnored)
+    (c : Context) (hc : c ∈ s.ignored) : c ∈ (final s ops).ignored := by
+  induction ops generalizing s with
+  | nil => exact hc
+  | cons op ops ih =>
+    simp only [final]
+    apply ih _ (fun o ho => h o (List.mem_cons_of_mem _ ho))
+    have hop := h op List.mem_cons_self
+    cases op with
+    | lint text lang alts => rw [(lint_step s text lang alts).1]; exact hc
+    | apply text sp sugg => simp only [step]; split <;> exact hc
+    | ignore l alts =>
+      simp only [step]
+      split
+      · exact hc
+      · exact mem_insertCtx.mpr (Or.inl hc)
+    | importIgnored p =>
+      simp only [step]
+      exact (mem_append_importL _ _ _).mpr (Or.inl hc)
+    | clearIgnored => exact absurd rfl hop
+    | importWords ws => simp only [step, importWords]; split <;> exact hc
+    | exportIgnored | exportWords | setConfig _ | getConfig | statsCount => exact hc
+
+/-- … hence after `ignore_lint(l)` EVERY later `lint` call — of any text, after any calls other than
+`clear_ignored_lints` — returns no lint whose context (in the document that call parses) is `l`'s.
+(After an `import_words` the same characters can have another context: finding
+`c16-ignored-lint-returns-after-import-words`.) -/
+theorem ignored_keeps_hidden (s : State) (l : RawLint) (altsI : List Alt) (aI : Alt)
+    (hpick : pickAlt s.synced altsI = some aI) (mid : List Op)
+    (hmid : ∀ op ∈ mid, op ≠ .clearIgnored) (text : List Nat) (lang : Nat) (alts : List Alt)
+    (ls : List WLint)
+    (h : (step (final (step s (.ignore l altsI)).1 mid) (.lint text lang alts)).2 = .lints ls) :
+    ∃ a, pickAlt (final (step s (.ignore l altsI)).1 mid).synced alts = some a ∧
+      ∀ w ∈ ls, contextOf w.lint a.toks ≠ contextOf l aI.toks := by
+  have hin : contextOf l aI.toks ∈ (final (step s (.ignore l altsI)).1 mid).ignored := by
+    apply ignored_monotone _ _ hmid
+    simp only [step, hpick]
+    exact mem_insertCtx.mpr (Or.inr rfl)
+  generalize final (step s (.ignore l altsI)).1 mid = s' at h hin
+  rcases (lint_step s' text lang alts).2 with ⟨_, hn⟩ | ⟨a, ha, _, ⟨ls', hl', hout⟩ | ⟨p, _, hout⟩⟩
+  · rw [hn] at h; cases h
+  · rw [hout] at h; cases h
+    refine ⟨a, ha, ?_⟩
+    intro w hw hc
+    unfold lintCore at hl'
+    have hmap := (attachAll_spec text lang _ _ hl').1
+    have : w.lint ∈ removeIgnored s'.ignored (dedup a.raw) a.toks := by
+      rw [← hmap]; exact List.mem_map_of_mem hw
+    rw [C14.removeIgnored_exact] at this
+    have hni : contextOf w.lint a.toks ∉ s'.ignored := by simpa using (List.mem_filter.mp this).2
+    exact hni (hc ▸ hin)
+  · rw [hout] at h; cases h
+
+/-- non-vacuity of ignored_monotone / ignored_keeps_hidden: ignore P in `ab ab ab ab ac`; then
+another ignore (other document), an import of an ignore list, a config change, an export — none
+is `clear_ignored_lints`; the list holds three contexts and the later `lint` still returns R only -/
+example :
+    let mid : List Op := [.ignore Wit.C Wit.altsC, .importIgnored [contextOf Wit.A' Wit.toksC],
+      .setConfig [(5, some true)], .exportIgnored]
+    (∀ op ∈ mid, op ≠ .clearIgnored) ∧
+    pickAlt init.synced Wit.altsP = some ⟨[], [Wit.P, Wit.Q, Wit.R], Wit.toksP⟩ ∧
+    (final (step init (.ignore Wit.P Wit.altsP)).1 mid).ignored.length = 3 ∧
+    (step (final (step init (.ignore Wit.P Wit.altsP)).1 mid) (.lint Wit.textP 0 Wit.altsP)).2
+      = .lints [⟨Wit.R, [97, 98], 0⟩] := by
+  refine ⟨?_, ?_, ?_, ?_⟩
+  · intro op h
+    simp only [List.mem_cons, List.not_mem_nil, or_false] at h
+    rcases h with rfl | rfl | rfl | rfl <;> exact fun h => Op.noConfusion h
+  all_goals decide
+
 /-! ### export → import -/
 
 /-- Clause "exporting then importing the ignore list restores the same behaviour": a linter with an
@@ -371,6 +504,29 @@ theorem export_import_ignored_eq (s s₀ : State) (h₀ : s₀.ignored = []) (hn
   rw [C14.export_import_eq s.ignored hn]
   have := foldl_insertCtx_nodup s.ignored [] (by simpa using hn)
   simpa using this
+
+/-- non-vacuity of export_import_ignored_restores and export_import_ignored_eq: two ignored
+contexts; the other linter is the same one after `clear_ignored_lints` (it then reports both lints
+again); the payload is the export in another order with repetitions -/
+example :
+    let s : State := final init [.ignore Wit.C Wit.altsC, .ignore Wit.A' Wit.altsC, .setConfig [(5, some true)]]
+    let s₀ : State := final s [.clearIgnored]
+    let payload := (exportL s.ignored).reverse ++ exportL s.ignored
+    s.ignored.length = 2 ∧ s.ignored.Nodup ∧ s₀.ignored = [] ∧ s₀.synced = s.synced ∧
+    (∀ c, c ∈ payload ↔ c ∈ exportL s.ignored) ∧
+    (step (step s₀ (.importIgnored payload)).1 (.lint Wit.textC 0 Wit.altsC)).2 = .lints [] ∧
+    (step s₀ (.lint Wit.textC 0 Wit.altsC)).2
+      = .lints [⟨Wit.A', [97, 98, 99, 100, 101], 0⟩, ⟨Wit.C, [103, 104], 0⟩] ∧
+    (step s₀ (.importIgnored (exportL s.ignored))).1.ignored = s.ignored := by
+  intro s s₀ payload
+  have h0 : s₀.ignored = [] := by decide
+  have hd : s₀.synced = s.synced := by decide
+  have hp : ∀ c, c ∈ payload ↔ c ∈ exportL s.ignored := by
+    intro c; simp [payload]
+  have hn : s.ignored.Nodup := by decide
+  refine ⟨by decide, hn, h0, hd, hp, ?_, by decide, export_import_ignored_eq s s₀ h0 hn⟩
+  rw [(export_import_ignored_restores s s₀ payload h0 hd hp Wit.textC 0 Wit.altsC).2]
+  decide
 
 /-- `import_ignored_lints` APPENDS: on a non-empty list it hides what either list hid (C14). -/
 theorem import_ignored_is_union (s : State) (payload : List Context) (l : RawLint) (toks : List Tok) :
@@ -427,6 +583,19 @@ theorem final_invariant (s : State) (ops : List Op) (h : Inv s) : Inv (final s o
 /-- every state reachable from `Linter::new` satisfies the invariant -/
 theorem state_invariant (ops : List Op) : Inv (final init ops) := final_invariant init ops inv_init
 
+/-- a use of `run_forall₂_inv` (its hypotheses are met by `Inv`, `inv_step`): every
+`export_ignored_lints` of every sequence of calls from a state satisfying the invariant — in
+particular from `Linter::new` — returns a duplicate-free list -/
+theorem exports_nodup (s : State) (ops : List Op) (hs : Inv s) :
+    AllCalls (fun _op out => ∀ cs, out = .ignoredList cs → cs.Nodup) s ops := by
+  refine run_forall₂_inv Inv inv_step _ ?_ s ops hs
+  intro s op hI cs hout
+  cases op <;> simp only [step] at hout
+  all_goals first
+    | (cases hout; exact hI.1)
+    | (split at hout <;> try split at hout) <;> cases hout
+    | cases hout
+
 /-- `synchronize_lint_dict` (inside `import_words`) preserves the ignore list and the config -/
 theorem sync_preserves_config_and_ignores (s : State) (ws : List Word) :
     (step s (.importWords ws)).1.ignored = s.ignored ∧
@@ -469,6 +638,18 @@ theorem import_new_key_syncs (s : State) (ws : List Word) (w : Word) (hw : w ∈
     have := hmem ws s.userWords hw
     rw [hex] at this
     exact hnew this
+
+/-- non-vacuity of import_new_key_syncs: the stale state of finding 44 (`zqxv` in force, `Zqxv` in
+the user dictionary) imports a list holding one new key: back in sync -/
+example :
+    let s : State := final init [.importWords [Wit.z], .importWords [Wit.Z]]
+    ¬ InSync s ∧ Wit.wN ∈ [Wit.Z, Wit.wN] ∧ Wit.wN.key ∉ keys s.userWords ∧
+    InSync (step s (.importWords [Wit.Z, Wit.wN])).1 ∧
+    (step s (.importWords [Wit.Z, Wit.wN])).1.synced = [Wit.Z, Wit.wN] := by
+  intro s
+  have hw : Wit.wN ∈ [Wit.Z, Wit.wN] := by decide
+  have hnew : Wit.wN.key ∉ keys s.userWords := by decide
+  exact ⟨by decide, hw, hnew, import_new_key_syncs s _ _ hw hnew, by decide⟩
 
 /-- Clause "exporting then importing the custom words restores the same behaviour" — the part that
 is true: if the dictionary in force is the user dictionary, a fresh linter that imports what
@@ -515,6 +696,25 @@ theorem export_import_words_restores_partial (s s₀ : State) (hinv : Inv s) (hs
     dsimp only
     cases lintCore s.ignored text lang a.raw a.toks <;> rfl
 
+/-- non-vacuity of export_import_words_restores_partial, ALL hypotheses together: two user words
+and one ignored lint; the fresh linter (same ignore list) imports the words in the other order and
+answers the `lint` call alike -/
+example :
+    let alts : List Alt := [⟨[[97], [98]], [Wit.C, Wit.B, Wit.A'], Wit.toksC⟩]
+    let s : State := final init [.importWords [⟨1, [97]⟩, ⟨2, [98]⟩], .ignore Wit.C alts]
+    let s₀ : State := { init with ignored := s.ignored }
+    let p : List Word := [⟨2, [98]⟩, ⟨1, [97]⟩]
+    s.ignored.length = 1 ∧ InSync s ∧ p.Perm s.userWords ∧ p ≠ s.userWords ∧
+    (step (step s₀ (.importWords p)).1 (.lint Wit.textC 0 alts)).2
+      = .lints [⟨Wit.A', [97, 98, 99, 100, 101], 0⟩] := by
+  intro alts s s₀ p
+  have hinv : Inv s := state_invariant _
+  have hsync : InSync s := by decide
+  have hp : p.Perm s.userWords := List.Perm.swap _ _ _
+  refine ⟨by decide, hsync, hp, by decide, ?_⟩
+  rw [(export_import_words_restores_partial s s₀ hinv hsync rfl rfl rfl p hp Wit.textC 0 alts).2.2.2]
+  decide
+
 /-- The FULL clause for custom words is **false of the code**: `import_words` re-synchronises only
 when the number of entries grew, and `WordId` is case-insensitive. History: `import_words(["zqxv"])`,
 then `import_words(["Zqxv"])` — the user dictionary (and `export_words`) now says `Zqxv`, the
@@ -543,6 +743,15 @@ theorem config_roundtrip (s s₀ : State) (hinv : Inv s) (h₀ : s₀.config = [
   simp only [step, h₀]
   have := mergeConfig_fresh s.config [] (by simpa using hinv.2.2.2)
   simpa using this
+
+/-- non-vacuity of config_roundtrip: a reachable config of two entries -/
+example :
+    let s : State := final init [.setConfig [(5, some true), (6, none), (7, some false)], .setConfig [(5, some false)]]
+    Inv s ∧ s.config = [(5, false), (7, false)] ∧
+    (step init (.setConfig (s.config.map (fun e => (e.1, some e.2))))).1.config = s.config := by
+  intro s
+  have hinv : Inv s := state_invariant _
+  exact ⟨hinv, by decide, (config_roundtrip s init hinv rfl).2.1⟩
 
 /-! ### Non-vacuity and witnesses (concrete, kernel-evaluated) -/
 
